@@ -107,15 +107,24 @@ ResultAgrees(ty, v, res) ==
                  [] o.which = "empty" -> res.empty
                  [] o.which = "len"   -> res.has_str /\ o.bound \in SeqRange(res.nums)
 
-\* run-length encoded sweep event: all integers from..to (TLC ints) in form `form` gave class cls
-Form(form, x) == IF form = "int" THEN [t |-> "int", b |-> FALSE, sg |-> IntToSigned(x).sg, d |-> IntToSigned(x).d, s |-> "", n |-> 0]
-                 ELSE [t |-> "neg", b |-> FALSE, sg |-> IntToSigned(x).sg, d |-> IntToSigned(x).d, s |-> "", n |-> 0]
+\* run-length encoded sweep event: all integers x = sg * (base + k), k \in kfrom..kto, in form `form` gave class cls
+\* (base: digits of the end of the stretch nearest to zero; a stretch never crosses zero; k is small, base may exceed 32 bits)
+RECURSIVE AddRev(_, _, _)
+AddRev(ra, rb, carry) ==
+    IF ra = <<>> /\ rb = <<>> THEN (IF carry = 0 THEN <<>> ELSE <<carry>>)
+    ELSE LET a == IF ra = <<>> THEN 0 ELSE ra[1]
+             b == IF rb = <<>> THEN 0 ELSE rb[1]
+             t == a + b + carry
+         IN <<t % 10>> \o AddRev(IF ra = <<>> THEN <<>> ELSE Tail(ra), IF rb = <<>> THEN <<>> ELSE Tail(rb), t \div 10)
+DAddNat(a, k) == Strip(Rev(AddRev(Rev(a), Rev(NatToDigits(k)), 0)))
+SweepNum(sg, base, k) == LET d == DAddNat(base, k) IN IF d = DZero THEN SZero ELSE Sgn(sg, d)
+FormS(form, x) == [t |-> IF form = "int" THEN "int" ELSE "neg", b |-> FALSE, sg |-> x.sg, d |-> x.d, s |-> "", n |-> 0]
 
 ClassOf(o) == IF o.z = "domain" THEN "msg" ELSE o.z
 
 RangeAgrees(e) ==
-    \A x \in e.from..e.to :
-         LET o == Outcome(e.ty, Form(e.form, x)) IN
+    \A k \in e.kfrom..e.kto :
+         LET o == Outcome(e.ty, FormS(e.form, SweepNum(e.sg, e.base, k))) IN
          /\ ClassOf(o) = e.cls
          /\ (o.z = "ok" => e.exact)
          /\ (o.z = "domain" /\ o.which \in {"max", "min"} => e.names_recv /\ o.bound \in SeqRange(e.others))
